@@ -1831,7 +1831,11 @@ class Parallel(Logger):
                 # timeouts before any other dispatched job has completed and
                 # been added to `self._jobs` to be retrieved.
                 if timeout_control_job is None:
-                    timeout_control_job = next(iter(self._jobs_set), None)
+                    # The completion callbacks add to this set (with the lock
+                    # held) when they dispatch a new batch: iterating over it
+                    # unprotected can raise "Set changed size during iteration"
+                    with self._lock:
+                        timeout_control_job = next(iter(self._jobs_set), None)
 
                 # NB: it can be None if no job has been dispatched yet.
                 if timeout_control_job is not None:
